@@ -136,8 +136,17 @@ type ATUpAssign struct {
 	Lit *ATVal
 }
 
+// ATOrd is one ORDER BY item
+type ATOrd struct {
+	Col  int
+	Desc bool
+}
+
 type ATStmt struct {
-	Kind   byte // U D X Y(upsert)
+	Kind byte // U D X Y(upsert)
+	// ORDER BY … LIMIT of an UPDATE / DELETE (none when both are zero); tokens W / K
+	Order  []ATOrd
+	Limit  int
 	Assign []ATUpAssign
 	Sets   []ATSet
 	Where  *ATCond
@@ -146,6 +155,31 @@ type ATStmt struct {
 	Classes []string
 	// ForceFail: the database is made to fail the business statement (injected error)
 	ForceFail bool
+}
+
+// HasLimit: the statement carries ORDER BY … LIMIT
+func (s *ATStmt) HasLimit() bool { return s.Limit > 0 || len(s.Order) > 0 }
+
+// addOrderLimit turns an UPDATE / DELETE into its ORDER BY … LIMIT form (integer sort columns, the key
+// last so that the order is total); only for schemas whose key columns are integers
+func addOrderLimit(r *Rng, sc *ATSchema, st *ATStmt) {
+	for _, p := range sc.PK {
+		if sc.Cols[p].Typ != 'i' {
+			return
+		}
+	}
+	used := map[int]bool{}
+	for k := 0; k < r.Intn(2); k++ {
+		c := r.Intn(len(sc.Cols))
+		if sc.Cols[c].Typ == 'i' && !used[c] && !sc.isPK(c) {
+			used[c] = true
+			st.Order = append(st.Order, ATOrd{Col: c, Desc: r.Bool()})
+		}
+	}
+	for _, p := range sc.PK {
+		st.Order = append(st.Order, ATOrd{Col: p, Desc: r.Chance(30)})
+	}
+	st.Limit = 1 + r.Intn(3)
 }
 
 // Arm injects the failure of a ForceFail statement; the returned func disarms it.
@@ -241,7 +275,11 @@ func (s *ATStmt) Render(sc *ATSchema) (string, []interface{}, string) {
 	switch s.Kind {
 	case 'U':
 		o.sb.WriteString("UPDATE " + sc.Table + " SET ")
-		fmt.Fprintf(&o.tok, "U%d:", len(s.Sets))
+		if s.HasLimit() {
+			fmt.Fprintf(&o.tok, "W%d:", len(s.Sets))
+		} else {
+			fmt.Fprintf(&o.tok, "U%d:", len(s.Sets))
+		}
 		for i, st := range s.Sets {
 			if i > 0 {
 				o.sb.WriteString(", ")
@@ -261,7 +299,11 @@ func (s *ATStmt) Render(sc *ATSchema) (string, []interface{}, string) {
 		o.cond(sc, s.Where)
 	case 'D':
 		o.sb.WriteString("DELETE FROM " + sc.Table)
-		o.tok.WriteString("D")
+		if s.HasLimit() {
+			o.tok.WriteString("K")
+		} else {
+			o.tok.WriteString("D")
+		}
 		if s.Where.Op != "T" {
 			o.sb.WriteString(" WHERE ")
 		}
@@ -304,6 +346,24 @@ func (s *ATStmt) Render(sc *ATSchema) (string, []interface{}, string) {
 			}
 		}
 	}
+	if (s.Kind == 'U' || s.Kind == 'D') && s.HasLimit() {
+		o.sb.WriteString(" ORDER BY ")
+		fmt.Fprintf(&o.tok, "o%d:", len(s.Order))
+		for i, it := range s.Order {
+			if i > 0 {
+				o.sb.WriteString(", ")
+			}
+			o.sb.WriteString(sc.Cols[it.Col].Name)
+			if it.Desc {
+				o.sb.WriteString(" DESC")
+				fmt.Fprintf(&o.tok, "%dd", it.Col)
+			} else {
+				fmt.Fprintf(&o.tok, "%da", it.Col)
+			}
+		}
+		fmt.Fprintf(&o.sb, " LIMIT %d", s.Limit)
+		fmt.Fprintf(&o.tok, "n%d.", s.Limit)
+	}
 	fmt.Fprintf(&o.tok, "G%d:", len(o.args))
 	if s.ForceFail {
 		t := o.tok.String()
@@ -326,6 +386,7 @@ type ATGenOpts struct {
 	StrPK           bool
 	PKUpdates       bool      // UPDATE statements that name a primary-key column
 	Upserts         bool      // INSERT … ON DUPLICATE KEY UPDATE statements
+	OrderLimit      bool      // UPDATE / DELETE … ORDER BY … LIMIT n
 	Existing        [][]ATVal // the initial rows (for statements aimed at existing keys)
 	ContinueOnError bool      // explicit transactions may ignore a failing INSERT and commit
 	BigInts         bool      // integer columns cluster at one large magnitude
@@ -727,12 +788,17 @@ func genStmt(r *Rng, sc *ATSchema, taken map[string]bool, o ATGenOpts) *ATStmt {
 	if o.Upserts && r.Chance(20) {
 		return genUpsert(r, sc, o.Existing, taken)
 	}
+	var st *ATStmt
 	switch r.Intn(10) {
 	case 0, 1, 2, 3:
-		return genUpdate(r, sc, o)
+		st = genUpdate(r, sc, o)
 	case 4, 5, 6:
 		return genInsert(r, sc, taken, o)
 	default:
-		return genDelete(r, sc, o)
+		st = genDelete(r, sc, o)
 	}
+	if o.OrderLimit && r.Chance(30) {
+		addOrderLimit(r, sc, st)
+	}
+	return st
 }
